@@ -75,7 +75,7 @@ def _case(draw, tier):
         opts["max_candidates_int"] = draw(st.integers(1, 6))
         opts["max_candidates_float"] = draw(st.sampled_from(
             [0.1, 0.3, 0.5, 0.8, 1.0]))
-        opts["n_jobs"] = draw(st.sampled_from([1, 2, 3]))
+        opts["n_jobs"] = draw(st.sampled_from([1, 2, 3, -1]))
     excl = poolreg.is_wrapper(name) and poolreg.entry_of(name)["init"].get(
         "exclude_non_subsample")
     if ent["sample_weight"] and not excl and draw(st.integers(0, 2)) == 0:
